@@ -132,9 +132,14 @@ def dispatch_shape(ctx, RD, RW, RLIVE, only_live: bool = False):
                     # self._handlers[...] , or a name bound inside this iteration to such a read.  (After term substitution
                     # an alias bound before the loop looks identical, so this is decided on the unsubstituted test.)
                     fresh = []
-                    for x in b.evs:
+                    for ix, x in enumerate(b.evs):
                         if x.kind == "cond" and x.extra.get("truth") and x.text in mem_true:
                             raw = x.raw
+                            # the test may be made in a helper method called from the loop body (`if self._is_registered(h, w):`): it is
+                            # the helper's own return expression, evaluated inside this iteration, that reads the registry
+                            rets = [y for y in b.evs[:ix] if y.kind == "return" and y.text == x.text and y.depth > x.depth]
+                            if " in " not in raw and rets:
+                                raw = re.sub(r"^return\s+", "", rets[-1].raw or "")
                             rhs = raw.split(" in ", 1)[1] if " in " in raw else raw
                             if "self._handlers" in rhs:
                                 fresh.append(x.text)
